@@ -90,6 +90,61 @@ func c16(r *Report) {
 			errorsReturnedRule(r, r.W.Fn("har", n), false)
 		}
 
+		// the snapshot and its readers decide "is the body chunk-framed" with one predicate: every test
+		// against the coding name "chunked" in messageview and har is of the same kind (exact or folded)
+		{
+			kinds := map[string][]string{}
+			var first token.Pos
+			for _, pk := range []string{"messageview", "har"} {
+				for _, f := range w.Funcs(pk) {
+					for _, in := range instrs(f) {
+						kind := ""
+						switch x := in.(type) {
+						case *ssa.BinOp:
+							if x.Op != token.EQL && x.Op != token.NEQ {
+								continue
+							}
+							for _, side := range []ssa.Value{x.X, x.Y} {
+								if k, isK := constString(side); isK && strings.EqualFold(k, "chunked") {
+									kind = "exact(" + k + ")"
+								}
+							}
+						case *ssa.Call:
+							for _, a := range x.Call.Args {
+								if k, isK := constString(a); isK && strings.EqualFold(k, "chunked") {
+									switch calleeName(x) {
+									case "strings.EqualFold":
+										kind = "folded"
+									case "fmt.Fprintf", "fmt.Sprintf", "fmt.Fprint", "fmt.Fprintln", "M/log.Debugf", "M/log.Errorf", "M/log.Infof":
+									default:
+										kind = "call " + calleeName(x) + "(" + k + ")"
+									}
+								}
+							}
+						}
+						if kind == "" {
+							continue
+						}
+						kinds[kind] = append(kinds[kind], fnName(f))
+						if first == token.NoPos {
+							first = in.Pos()
+						}
+						r.Touch(f)
+					}
+				}
+			}
+			var desc []string
+			total := 0
+			for k, fs := range kinds {
+				sort.Strings(fs)
+				desc = append(desc, fmt.Sprintf("%s in %v", k, fs))
+				total += len(fs)
+			}
+			sort.Strings(desc)
+			r.Sites += total
+			r.Decide("sibling", "the snapshot and its readers test for the chunked coding in the same way", len(kinds) == 1 && total >= 3, strings.Join(desc, "; "), "the tests for the chunked coding disagree ("+strings.Join(desc, "; ")+"): a message one site frames in chunks is read as unframed by another, and chunk sizes end up in the logged body (or a plain body is de-chunked)", first)
+		}
+
 		for _, f := range w.Funcs("har") {
 			for _, c := range plainCalls(f, "(*M/messageview.MessageView).BodyReader") {
 				r.Touch(f)
@@ -801,7 +856,9 @@ func c16(r *Report) {
 					}) {
 						rawCT = true
 					}
-					if anyIn(sl, func(v ssa.Value) bool { return isExtractOfCall(v, "mime.ParseMediaType") || isCallValue(v, "mime.ParseMediaType") }) {
+					if anyIn(sl, func(v ssa.Value) bool {
+						return isExtractOfCall(v, "mime.ParseMediaType") || isCallValue(v, "mime.ParseMediaType")
+					}) {
 						parsed = true
 					}
 				}
